@@ -3,7 +3,7 @@
    and duplicate free, heap length a positive multiple of the chunk size).            *)
 From Coq Require Import Lia FMapPositive.
 From MW Require Import Model.Base Model.F64 Model.Num Model.Datum Model.TransformDef
-  Model.VmTypes Model.Heap Model.VmBase Model.Str Proofs.StrProofs.
+  Model.VmTypes Model.Heap Model.VmBase Model.Str Proofs.VmProofs0 Proofs.StrProofs.
 Open Scope N_scope.
 
 (* ------------------------------------------------------------- range_asc *)
